@@ -12,7 +12,7 @@ from .common import call, msg_pool
 
 SELFTESTS = ["fields", "params", "zcash", "h2c", "bls", "hkdf"]
 DECIDING = ["B-c01.verify", "B-c01.pop", "M-bls.reject", "B-c01.keygen"]
-SCOPE = ["B-c01", "M-bls.reject", "M-bls.keygen", "M-bls.total"]
+SCOPE = ["B-c01", "M-bls.reject"]
 RULE = ("cases = (suite, secret key, message) triples driven through SkToPk -> Sign -> Verify and PopProve -> PopVerify on the real ciphersuite "
         "classes; the oracle demands exactly True; invalid secret keys (0, r, r+1, 2r, -1, -r, 2^255, 2^256, 10^100, str, bytes, float, None, "
         "list, Fraction) must be refused with eth_utils.ValidationError by SkToPk, Sign and PopProve (monitor wrapped around the methods); "
